@@ -173,6 +173,9 @@ def task_value(inst, mode):
                 return v[1]
     if mode == "const":
         return ("k", inst.tmpl)
+    if mode == "excval":
+        # an exception *instance* returned as an ordinary value (never raised)
+        return ValueError("returned-as-value-%d" % inst.tmpl)
     return "%s=%s" % (inst.token, h([(k, v[0]) for k, v in inst.recv]))
 
 
